@@ -521,6 +521,16 @@ def run_trace(params: dict) -> tuple[dict, dict]:
         r = {"pos": np.array(pos, dtype=float).tolist(), "e": float(e), "warn": int(d["warnflag"]),
              "task": d["task"] if isinstance(d["task"], str) else repr(d["task"]),
              "bonds": True, "shift": None, "u": 0.0, "delta": None, "clip": True}
+        # what L-BFGS-B's own stopping test looks at, recomputed at the returned point from outside: the largest component
+        # of the projected gradient (same function, same point: the same number)
+        try:
+            gq = np.asarray(pot.function_gradient(np.array(pos, dtype=float).copy())[1], dtype=float)
+            pq = np.array(pos, dtype=float)
+            lo_, hi_ = np.array([b[0] for b in bounds]), np.array([b[1] for b in bounds])
+            proj = np.where((pq <= lo_) & (gq > 0), 0.0, np.where((pq >= hi_) & (gq < 0), 0.0, gq))
+            r["pg"] = float(np.max(np.abs(proj)))
+        except Exception:  # noqa: BLE001
+            r["pg"] = None
         if st["t"] < 0:
             script["init"] = r
         else:
@@ -564,6 +574,8 @@ def trace_params(ctx: Ctx) -> list[dict]:
     for _ in range(ctx.scale(6, 30)):
         out.append({"surface": "camelback", "seed": rng.randrange(10 ** 6), "T": rng.choice([1e-6, 0.1, 1.0, 5.0]),
                     "step": rng.choice([0.7, 1.5, 2.5]), "n_steps": rng.randrange(15, 41)})
+        if _ % 3 == 2:
+            out[-1]["conv"] = rng.choice([1e-9, 1e-8, 1e-3])      # a run with a criterion other than the minimiser's default
         if _ % 3 == 1:
             out[-1]["start_dtype"] = rng.choice(["float32", "int64"])
     for _ in range(ctx.scale(4, 20)):
